@@ -218,6 +218,39 @@ claim("C20",
       ENGINE_TECH + " + stepwise correspondence of a mechanism model on real entry tables", "DESIGN.md §6 C20")
 
 
+# ---- from notes/C15_claim.py
+# to be pasted into harness/manifest_gen.py (after the other engine-level claims)
+claim("C15",
+      "Coq proof (11 theorems, no axioms), for ALL traces over any number of threads and one re-entrant lock (owner + depth), any state type, "
+      "any transformer semantics of a write and any observation function of a read: a well-locked trace in which every access of the guarded "
+      "state is made by the thread that owns the lock (disciplined) is equivalent — same per-thread event sequences, same final state from "
+      "every initial state, same value seen by every read — to a serial trace in which the critical sections run one after another "
+      "(C15_disciplined_serialisable; the witness is the extracted serialise, C15_serialise_correct; it is a sequence of single-thread atomic "
+      "steps whose effects fold to the run's effect, C15_serial_atomic_steps); every invariant preserved by each atomic step holds at every "
+      "point of the interleaved run where no thread owns the lock (C15_invariant_at_lock_free_points); the executable acceptors violations / "
+      "lock_errors decide exactly disciplined / well_locked (reflection, 5 theorems); without the discipline the statement is false "
+      "(C15_undisciplined_refuted: a locked and an unlocked increment lose an update, no serial trace reaches that state). "
+      "Tie on every run: a class-level observer (SyncState.updated, the attribute setters of SideState/SyncEntry/SyncState, observing dict/set "
+      "containers for both indexes, pending set, dirty set, requestset/excludeset, a recording wrapper around SyncState.lock) records the real "
+      "engine's lock operations and state accesses in the model's vocabulary; the extracted acceptors judge every trace and must agree with "
+      "RLock._is_owned() read at each access. Explored per run: all sequential clean-domain engine runs (five families, every access must be "
+      "lock-owned), production-style runs with the real threads (CloudSync.start(): sync thread, two event threads, notification thread) plus "
+      "application threads calling the public methods under switch intervals down to 1e-6 s and injected yields (lock ownership of every access; "
+      "both trees equal after stop for CloudSync; C11 index invariant at the end), scripted calls of every public method of CloudSync and "
+      "SmartCloudSync from an application thread, synthetic traces against a Python mirror, Python threads over a real RLock. "
+      "Open findings P-6/P-6d/P-6e: SmartCloudSync.smart_unsync_path/_oid, smart_delete_path, the pre-lock part of smart_sync_path/_oid, the "
+      "pending-set getter reached from `busy`, and CloudSync.forget touch the state without the lock (deterministic witnesses in corpus/C15).",
+      "Trusted: Coq kernel; extraction (ExtrOcamlBasic) + OCaml driver; the observer and its completeness for the writes that go through "
+      "__setattr__ of the three state classes and through the six containers (reads of entry fields are not observed; a container read counts "
+      "as part of a read-modify-write when the same do()/public call also writes); threading.RLock._is_owned as ground truth; list.append "
+      "under the GIL as the global event order; the virtual clock of harness/engine.py (kept in threaded runs); MockProvider with its events() "
+      "iteration made atomic. Not modelled: WHICH accesses the engine performs (observed on explored runs only), C-level atomicity of dict/set "
+      "operations, the OS scheduler (interleavings are sampled; a run that does not get quiet within its budget is counted inconclusive). "
+      "The cursor rows (data_id) are outside the guarded state by the property's own list.",
+      "machine-checked proof (Coq) of serialisability for lock-disciplined traces + reflected trace acceptors run on the observed lock/access "
+      "traces of real sequential and threaded engine runs", "DESIGN.md §6 C15")
+
+
 ALL = ["C%02d" % i for i in range(1, 21)]
 
 
